@@ -44,6 +44,8 @@ def callee_of(term):
     if not c:
         return None
     r = c.get("resolved")
+    if r and "fwd" in c and "fwd" not in r:
+        r["fwd"] = c["fwd"]
     return r if r else c
 
 
